@@ -488,16 +488,20 @@ func sortEntries(p geom.Point, entries []entry) ([]entry, []float64) {
 
 func pruneEntries(p geom.Point, entries []entry, minDists []float64) []entry {
 	minMinMaxDist := math.MaxFloat64
+	best := -1 // the entry with the smallest minMaxDist
 	for i := range entries {
 		minMaxDist := minMaxDist(p, entries[i].bb)
 		if minMaxDist < minMinMaxDist {
 			minMinMaxDist = minMaxDist
+			best = i
 		}
 	}
-	// remove all entries with minDist > minMinMaxDist
+	// remove all entries with minDist > minMinMaxDist, but never the entry
+	// that attains minMinMaxDist: for a box that is degenerate in one dimension
+	// rounding can make its minMaxDist smaller than its own minDist.
 	pruned := []entry{}
 	for i := range entries {
-		if minDists[i] <= minMinMaxDist {
+		if minDists[i] <= minMinMaxDist || i == best {
 			pruned = append(pruned, entries[i])
 		}
 	}
